@@ -431,4 +431,27 @@ Section RT2.
     - rewrite (OA a eq_refl). unfold dflt_tokens. now rewrite D.
     - unfold dflt_tokens. now rewrite D.
   Qed.
+
+  (** ** the same with the alpha0 hypothesis spelled out for the current polarity of the rule: the option is
+      not alpha0, or no synchrotron frequency was given (and its default denotes zero) *)
+  Theorem roundtrip_no_fs P ex cli fs dflt s ftok items :
+    checker T P = true -> checker13 T W P ex = true -> checker13b P = true -> w_alpha_when_zero W = false ->
+    parse T wf P cli fs dflt = Run s -> resolve_all T cli = Some items -> wf TString ftok = true ->
+    exists s', reload T wf W zerotok round6 P s ftok = Run s' /\
+      forall o, In o T -> is_canon o = true -> typed o = true -> mem (o_name o) ex = false ->
+        (o_name o <> w_alpha_name W
+         \/ exists ofs d, In ofs T /\ is_canon ofs = true /\ typed ofs = true /\ o_var ofs = w_alpha_var W
+                          /\ occurs (o_name ofs) items = false
+                          /\ occurs (o_name ofs) (loaded T P items fs dflt) = false
+                          /\ (forall a, alias_of (prog_aliases P) (o_name ofs) = Some a -> occurs a (loaded T P items fs dflt) = false)
+                          /\ o_defcli ofs = Some d /\ zerotok d = true) ->
+        s_vars s' (o_var o) = s_vars s (o_var o).
+  Proof.
+    intros CK C13 C13b WZ H RA Wf.
+    destruct (roundtrip_full P ex cli fs dflt s ftok items CK C13 C13b H RA Wf) as (s' & R & EQ).
+    exists s'. split; [exact R|]. intros o Io Co To Ex AL. apply (EQ o Io Co To Ex).
+    destruct AL as [NA|(ofs & d & Iofs & Cofs & Tofs & Vofs & O1 & O2 & OA & D & Z)]; [now left|right].
+    exists ofs. repeat split; try assumption.
+    now rewrite (not_given_zero P items _ ofs d O1 O2 OA D Z), WZ.
+  Qed.
 End RT2.
